@@ -672,7 +672,14 @@ func cmdCheck(args []string) int {
 				continue // already judged above, as a consequence of the edit of trusted code
 			}
 			if okLines == 0 || strings.Contains(c.Log, "--- FAIL") || strings.Contains(c.Outcome, "harness exit") {
-				engineFault = append(engineFault, "conformance run "+cs.Run+" of an assumed contract failed: "+firstLines(c.Log, 6))
+				// the bounded run of an assumed contract passed on the pinned tree and fails on this one: the code the
+				// contract is about was changed in a way the contract does not survive, and the proof of this property
+				// rests on it.  Reported as a violation without a property-level input.
+				name := "assumed-contract:" + cs.Run
+				path := report(name, map[string]interface{}{"property": ps.ID, "obligation": name, "kind": "bounded-conformance",
+					"replay_log": c.Log, "replay_outcome": c.Outcome,
+					"note": "the bounded conformance run of a contract this property's proof assumes fails on this tree (it passes on the pinned tree); the proof no longer stands"})
+				violations = append(violations, fmt.Sprintf("VIOLATION property=%s replay=%s no-failing-input-found", ps.ID, path))
 			}
 		}
 		if ps.Replay != nil && len(res.failed) == 0 && len(res.translateErr) == 0 {
@@ -693,7 +700,9 @@ func cmdCheck(args []string) int {
 				}
 			}
 		}
-		if _, err := os.Stat(filepath.Join(*verif, "selftest", "mustfail")); err == nil && *repo == "/repo" {
+		// the must-fail corpus is a statement about the machinery on a tree where this property holds: it is not run
+		// once a violation has been found (the stored changes are diffs against a tree that is now different)
+		if _, err := os.Stat(filepath.Join(*verif, "selftest", "mustfail")); err == nil && *repo == "/repo" && len(violations) == 0 && len(knownHit) == 0 {
 			cmd := exec.Command("python3", filepath.Join(*verif, "tools", "selftest.py"), "--property", ps.ID, "--jobs", "4")
 			cmd.Dir = *verif
 			out, err := cmd.CombinedOutput()
